@@ -29,7 +29,7 @@ def header_types():
 def ret(name='r'):
     """Substitution that names the return value of the extracted fn: `-> TYPE {` becomes
     `-> (r: TYPE) {`; type-agnostic, so a change of the return type does not lose the anchor."""
-    return (re.compile(r'\)\s*->\s*([^{;]+?)\s*(?=/\*@SPEC@\*/)'), r') -> (%s: \1) ' % name, 1, 'name-return-value')
+    return (re.compile(r'\)\s*->\s*([^{;]+?)\s*(?=\bwhere\b|/\*@SPEC@\*/)'), r') -> (%s: \1) ' % name, 1, 'name-return-value')
 
 
 HEAD = [Prelude('head.rs'), Prelude('tag.rs'), Prelude('serspec.rs')]
@@ -49,7 +49,9 @@ def io_head():
 WRITE_POST = '''    ensures match r {
         Ok(()) => final(out).sunk() == %(onto)s,
         Err(_) => pre(old(out).sunk(), final(out).sunk()) && pre(final(out).sunk(), %(onto)s),
-    },'''
+    },
+    old(out).infallible() ==> r is Ok,
+    final(out).infallible() == old(out).infallible(),'''
 
 
 def tag_instances():
@@ -59,3 +61,67 @@ def tag_instances():
                'impl Tag for IndexSignatureTag { open spec fn spec_to_u32(&self) -> u32 { self.v } fn to_u32(&self) -> u32 { self.v } }\n'
                'impl Tag for IndexTag { open spec fn spec_to_u32(&self) -> u32 { self.v } fn to_u32(&self) -> u32 { self.v } }\n',
                'R5 tag instances')
+
+
+def header_write_contract():
+    """`Header::write` as seen by callers in other units: the plain-form contract that follows
+    from V:c14_writers:Header::write + lemma_header_onto (both proved in unit c14_writers)."""
+    return Raw('''
+impl<T: Tag> Header<T> {
+    /// proved in unit c14_writers (V:Header::write, lemma_header_onto)
+    #[verifier::external_body]
+    pub fn write(&self, out: &mut impl VWrite) -> (r: Result<(), Error>)
+        ensures
+            r is Ok ==> final(out).sunk() == old(out).sunk() + ser_header(*self),
+            old(out).infallible() ==> r is Ok,
+            final(out).infallible() == old(out).infallible(),
+    { unimplemented!() }
+}
+''', 'Header::write contract (proved in c14_writers)')
+
+
+DIGEST_SPEC = '''
+// ---- C03, written from the statement ----------------------------------------------------------
+/// "recorded": the standard tag is present with its standard data type.
+pub open spec fn md5_recorded(p: Package) -> Option<Seq<u8>> { get_bin(p.metadata.signature, 1004) }
+pub open spec fn sha1_recorded(p: Package) -> Option<Seq<char>> { get_str(p.metadata.signature, 269) }
+pub open spec fn sha256_recorded(p: Package) -> Option<Seq<char>> { get_str(p.metadata.signature, 273) }
+pub open spec fn payload_recorded(p: Package) -> bool {
+    get_strarr(p.metadata.header, 5092) is Some && get_u32(p.metadata.header, 5093) is Some
+}
+pub open spec fn payload_algo(p: Package) -> u32 { get_u32(p.metadata.header, 5093)->0 }
+pub open spec fn payload_vals(p: Package) -> Seq<String> { get_strarr(p.metadata.header, 5092)->0 }
+pub open spec fn digests_ok(p: Package) -> bool {
+    let h = ser_header(p.metadata.header);
+    let c = p.content@;
+    &&& (md5_recorded(p) is Some ==> md5_recorded(p)->0 == md5_spec(h + c))
+    &&& (sha1_recorded(p) is Some ==> sha1_recorded(p)->0 == hex_spec(sha1_spec(h)))
+    &&& (sha256_recorded(p) is Some ==> sha256_recorded(p)->0 == hex_spec(sha256_spec(h)))
+    &&& (payload_recorded(p) ==> {
+            &&& payload_algo(p) == 8
+            &&& payload_vals(p).len() > 0
+            &&& payload_vals(p)[0]@ == hex_spec(sha256_spec(c))
+        })
+}
+'''
+
+
+VERIFY_DIGESTS_CONTRACT = Raw('''
+impl Package {
+    /// proved in unit c03_digests (V:Package::verify_digests)
+    #[verifier::external_body]
+    pub fn verify_digests(&self) -> (r: Result<(), Error>)
+        ensures r is Ok <==> digests_ok(*self),
+    { unimplemented!() }
+}
+''', 'verify_digests contract (proved in c03_digests)')
+
+
+def mut_self():
+    """R22: Verus does not support `mut self` receivers: `fn f(mut self, ..) { BODY }` becomes
+    `fn f(self, ..) { let mut this = self; BODY[self := this] }` (pure renaming)."""
+    r = 'R22-mut-self-receiver'
+    return [('(mut self', '(self', 1, r),
+            (re.compile(r'(/\*@SPEC@\*/\{)'), r'\1 let mut this = self;', 1, r),
+            (re.compile(r'\bself\.'), 'this.', None, r),
+            (re.compile(r'\n(\s+)self\n'), r'\n\1this\n', 1, r)]
